@@ -144,8 +144,37 @@ def parseMods : Nat → List String → Option (List ModInfo)
 
 def fresh : D := ⟨⟨fun _ => [], fun _ => false, true, true⟩, #[], State.init⟩
 
+/-! The model keeps its state as functions `Nat → …`; every step wraps the previous closures, and a
+read re-evaluates the whole chain (three reads per parameter per step: exponential in the trace
+length under the interpreter).  The DRIVER therefore tabulates the state after every step over the
+module / parameter ids that exist; the values are unchanged. -/
+def freezeRows (r : Rows Vec) : Rows Vec :=
+  let arr := (Array.range r.n).map r.row
+  ⟨r.n, fun i => arr.getD i 0⟩
+
+def freezeGS : GSVal Vec → GSVal Vec
+  | .none => .none
+  | .tensor t => .tensor (freezeRows t)
+  | .list ts => .list (ts.map freezeRows)
+
+def freeze (mods : Array ModInfo) (σ : State NT Vec) : State NT Vec :=
+  let P := mods.foldl (fun acc mi =>
+    max acc (max ((mi.wId.map (· + 1)).getD 0) ((mi.bId.map (· + 1)).getD 0))) 0
+  let M := mods.size
+  let acts := (Array.range M).map σ.acts
+  let maxLen := (Array.range M).map σ.maxLen
+  let counter := (Array.range P).map σ.counter
+  let current := (Array.range P).map fun p => (σ.current p).map freezeRows
+  let gs := (Array.range P).map fun p => freezeGS (σ.gradSample p)
+  { σ with
+    acts := fun m => if m < M then acts.getD m none else σ.acts m
+    maxLen := fun m => if m < M then maxLen.getD m none else σ.maxLen m
+    counter := fun p => if p < P then counter.getD p 0 else σ.counter p
+    current := fun p => if p < P then current.getD p none else σ.current p
+    gradSample := fun p => if p < P then gs.getD p .none else σ.gradSample p }
+
 def apply (d : D) (op : Op NT NT) : D × String :=
-  let σ' := step d.S smulNT (sampLinear d.S d.mods) d.σ op
+  let σ' := freeze d.mods (step d.S smulNT (sampLinear d.S d.mods) d.σ op)
   ({ d with σ := σ' }, match σ'.err with | some e => errStr e | none => "ok")
 
 def stepLine (d : D) (line : String) : D × String :=
